@@ -569,6 +569,13 @@ func intBinop(i *interpreter, op token.Token, k types.BasicKind, ty types.Type, 
 	}
 	switch op {
 	case token.QUO, token.REM:
+		if h, ok := i.divHints[tx]; ok && tyv.IsConst() && tyv.cval == h.c {
+			// x was built as q*c + r with 0 <= r < c (verifDurationParts)
+			if op == token.QUO {
+				return unterm(h.q, k)
+			}
+			return unterm(h.r, k)
+		}
 		isZero := i.tc.Mk("=", SBool, tyv, i.tc.Const(sort, 0))
 		if i.branch(unterm(isZero, types.Bool)) {
 			panic(targetPanic{i.runtimeError("integer divide by zero")})
